@@ -355,13 +355,15 @@ class Path(PathRun):
             self.ghost['_it'] = lst0
         pre = st.snapshot()
         pre_locs = dict(fr.locs)
-        self.ghost['_pre_loop'] = pre
-        self.check_invs(invs, s, 'loop-inv-entry', pre, pre_locs)
-        # arbitrary iteration: havoc what the body may modify
         mods = spec.get('modifies')
         fields, locs_mod, all_heap = self.modset(s.body + (s.orelse or []))
         if mods is not None:
             fields, all_heap = set(mods), False
+        self.materialize(None if all_heap else sorted(fields))
+        pre = st.snapshot()
+        self.ghost['_pre_loop'] = pre
+        self.check_invs(invs, s, 'loop-inv-entry', pre, pre_locs)
+        # arbitrary iteration: havoc what the body may modify
         self.havoc_fields(None if all_heap else sorted(fields))
         for name in sorted(locs_mod):
             cur = fr.locs.get(name)
@@ -443,33 +445,56 @@ class Path(PathRun):
             self.spec_mode -= 1
             self.old, self.entry_locs = saved
 
+    def materialize(self, fields: list[str] | None) -> None:
+        """Create the (lazily created) initial arrays of the named fields
+        now, so that snapshots taken afterwards contain them."""
+        st, ex = self.st, self.ex
+        for cn, ci in self.p.classes.items():
+            for f, fty in ci.fields.items():
+                if (cn, f) in st.heap:
+                    continue
+                if fields is None or f in fields or '%s.%s' % (cn, f) in fields:
+                    ex.heap_arr(st, cn, f, fty)
+                    self.ensure_old(cn, f)
+        for (okey, of), oty in self.OFIELDS.items():
+            if (okey, of) not in st.heap and (fields is None or of in fields):
+                srt = self.S.sort(self.p.tenv.named[okey])
+                st.heap[(okey, of)] = z3.Const(
+                    'H0_%s_%s' % (okey, of),
+                    z3.ArraySort(srt, self.S.sort(oty)),
+                )
+                self.ensure_old(okey, of)
+
     def havoc_fields(self, fields: list[str] | None) -> None:
         """Forget the value of the named fields (None: the whole heap).  The
         effect log is append-only: its old prefix is kept."""
         st, ex = self.st, self.ex
         eff = fields is None or 'effects' in fields
+        self.materialize(fields)
+        # make sure every field that is about to be forgotten has its
+        # initial array (shared with all saved pre-states) before it gets a
+        # fresh one: arrays are created lazily
+        for cn, ci in self.p.classes.items():
+            for f, fty in ci.fields.items():
+                if (cn, f) in st.heap:
+                    continue
+                if fields is None or f in fields or '%s.%s' % (cn, f) in fields:
+                    ex.heap_arr(st, cn, f, fty)
+                    self.ensure_old(cn, f)
+        for (okey, of), oty in self.OFIELDS.items():
+            if (okey, of) not in st.heap and (fields is None or of in fields):
+                srt = self.S.sort(self.p.tenv.named[okey])
+                st.heap[(okey, of)] = z3.Const(
+                    'H0_%s_%s' % (okey, of),
+                    z3.ArraySort(srt, self.S.sort(oty)),
+                )
+                self.ensure_old(okey, of)
         for k in list(st.heap.keys()):
             if fields is None or k[1] in fields or '%s.%s' % k in fields:
                 ex._fresh += 1
                 st.heap[k] = z3.Const(
                     'H%d_%s_%s' % (ex._fresh, k[0], k[1]), st.heap[k].sort(),
                 )
-        if fields is not None:
-            # fields never touched so far have no array yet; they are
-            # created lazily as H0_* which is also the pre-state name, so
-            # force a fresh one
-            for f in fields:
-                if f == 'effects':
-                    continue
-                for cn, ci in self.p.classes.items():
-                    if f in ci.fields and (cn, f) not in st.heap:
-                        ex.heap_arr(st, cn, f, ci.fields[f])
-                        self.ensure_old(cn, f)
-                        ex._fresh += 1
-                        st.heap[(cn, f)] = z3.Const(
-                            'H%d_%s_%s' % (ex._fresh, cn, f),
-                            st.heap[(cn, f)].sort(),
-                        )
         if fields is None or 'alloc' in (fields or []) or True:
             na = ex.fresh('alloc', TInt)
             st.assume(na.t >= st.alloc)
@@ -598,6 +623,8 @@ class Path(PathRun):
 
     # ------------------------------------------------------------------ specs
     def spec(self, text: str, loop: bool = False) -> Any:
+        if text.startswith('B:'):
+            text = text[2:]
         node = ast.parse('(' + text.strip() + '\n)', mode='eval').body
         was = self.spec_mode
         if not was:
@@ -690,6 +717,11 @@ def verify(
                     if alt != taken:
                         stack.append(base + [alt])
         res.paths = seen_paths
+        if not any(k.startswith(('return', 'raise', 'end:obligation'))
+                   for k in res.exits):
+            res.status = 'error'
+            res.reason = 'no path reaches an exit of the function ' \
+                '(contradictory precondition or invariant?): %r' % res.exits
         if res.end_paths == 0:
             res.status = 'error'
             res.reason = 'no feasible path (contradictory precondition?)'
@@ -748,6 +780,10 @@ def run_one(
     locs: dict[str, Any] = {}
     a = node.args
     params = [p.arg for p in a.posonlyargs + a.args + a.kwonlyargs]
+    if a.vararg:
+        locs[a.vararg.arg] = PyOpaque('*' + a.vararg.arg)
+    if a.kwarg:
+        locs[a.kwarg.arg] = PyOpaque('**' + a.kwarg.arg)
     for pn in params:
         if pn == 'self' and cls is not None:
             v = V(z3.Int('self'), TRef(cls))
@@ -801,9 +837,22 @@ def run_one(
         except _PathEnd as e:
             return 'end:' + e.why if e.why != 'infeasible' else 'infeasible'
         run.frames[:] = [fr]
+        if c.returns and c.returns != 'None':
+            try:
+                run.result = ex.coerce(
+                    st, run.result, prog.tenv.parse(c.returns),
+                )
+            except Unsupported:
+                pass
         for d in ex.S.str_distinct():
             st.assume(d)
         for ptxt in c.ensures:
+            if ptxt.startswith('B:'):
+                ex.used_assumed.add(
+                    'clause decided by the bounded check only (nested '
+                    'exists needs an arithmetic witness): ' + ptxt[2:60],
+                )
+                continue
             run.oblige(run.spec_post(ptxt), 'ensures', node, ptxt)
         return outcome
     except _PathEnd as e:
